@@ -492,44 +492,50 @@ def check_stall(scn, res):
     if not stalls:
         return [{'signature': f'C04/harness-no-stall/{fam}', 'what': f'[{scn.get("name")}] the scripted stall never happened (stop={res.reason})', 'detail': None}]
 
-    e      = stalls[0]
-    t0, S  = e['stall']
-    t1     = e.get('stall_end', t0 + S)
-    victim = e['f']
-    ct     = scn.get('conn_timeout') or 5000
+    ct = scn.get('conn_timeout') or 5000
 
-    # producers feeding the victim (transitively upstream)
-    ups, todo = set(), [victim]
+    for e in stalls:          # every scripted stall / pause of every consumer
+        t0, S  = e['stall']
+        t1     = e.get('stall_end', min(t0 + S, res.now))
+        victim = e['f']
 
-    while todo:
-        for up, eph, _, _ in sources_of(fs[todo.pop()]):
-            if eph == 0 and up not in ups:
-                ups.add(up)
-                todo.append(up)
+        if S >= ct:
+            continue          # longer than the connection timeout: the producer is allowed to move on
 
-    if S >= ct:
-        return viols      # longer than the connection timeout: the producer is allowed to move on
+        # producers feeding the victim (transitively upstream)
+        ups, todo = set(), [victim]
 
-    for up in sorted(ups):
-        pubs = [(t, info[2]) for t, ev, label, info, seq in res.wire
-                if ev == 'pub' and info[0] == 'pub' and info[1] == up and info[3] == '//' and (info[2] or 0) >= 0]
-        during = [p for p in pubs if t0 < p[0] < t1]
-        late   = [p for p in during if p[0] > t0 + C04_SETTLE]
+        while todo:
+            for up, eph, _, _ in sources_of(fs[todo.pop()]):
+                if eph == 0 and up not in ups:
+                    ups.add(up)
+                    todo.append(up)
 
-        if len(during) > C04_BOUND:
-            viols.append({'signature': f'C04/overrun/{fam}', 'what': f'[{scn.get("name")}] {up} published {len(during)} frames '
-                          f'(> {C04_BOUND}) while {victim} was stalled from {t0} to {t1} ms', 'detail': during[:20]})
+        for up in sorted(ups):
+            pubs = [(t, info[2]) for t, ev, label, info, seq in res.wire
+                    if ev == 'pub' and info[0] == 'pub' and info[1] == up and info[3] == '//' and (info[2] or 0) >= 0]
+            during = [p for p in pubs if t0 < p[0] < t1]
+            late   = [p for p in during if p[0] > t0 + C04_SETTLE]
 
-        if late:
-            viols.append({'signature': f'C04/keeps-publishing/{fam}', 'what': f'[{scn.get("name")}] {up} still published ids '
-                          f'{[p[1] for p in late][:8]} at {[p[0] for p in late][:8]} ms, more than {C04_SETTLE} ms into the stall of '
-                          f'{victim} ({t0}..{t1} ms): buffering grows with the stall length', 'detail': late[:20]})
+            # a publish that answers a request the victim had made before it stalled may itself have been held back by ANOTHER
+            # consumer's pause: with overlapping pauses only the count is checked, not the time by which the producer has settled
+            if any(o is not e and o['stall'][0] < t1 and o.get('stall_end', o['stall'][0] + o['stall'][1]) > t0 for o in stalls):
+                late = []
 
-    # after the stall the victim takes strictly increasing ids again
-    after = [x for x in res.log if x['ev'] == 'process' and x['f'] == victim and x['t'] >= t1 and x is not e]
+            if len(during) > C04_BOUND:
+                viols.append({'signature': f'C04/overrun/{fam}', 'what': f'[{scn.get("name")}] {up} published {len(during)} frames '
+                              f'(> {C04_BOUND}) while {victim} was stalled from {t0} to {t1} ms', 'detail': during[:20]})
 
-    if res.now >= t1 + 400 and not after:
-        viols.append({'signature': f'C04/no-resume/{fam}', 'what': f'[{scn.get("name")}] {victim} received nothing in the {res.now - t1} ms after its stall ended', 'detail': None})
+            if late:
+                viols.append({'signature': f'C04/keeps-publishing/{fam}', 'what': f'[{scn.get("name")}] {up} still published ids '
+                              f'{[p[1] for p in late][:8]} at {[p[0] for p in late][:8]} ms, more than {C04_SETTLE} ms into the stall of '
+                              f'{victim} ({t0}..{t1} ms): buffering grows with the stall length', 'detail': late[:20]})
+
+        # after the stall the victim takes strictly increasing ids again
+        after = [x for x in res.log if x['ev'] == 'process' and x['f'] == victim and x['t'] >= t1 and x is not e]
+
+        if res.now >= t1 + 400 and not after:
+            viols.append({'signature': f'C04/no-resume/{fam}', 'what': f'[{scn.get("name")}] {victim} received nothing in the {res.now - t1} ms after its stall ended', 'detail': None})
 
     return viols
 
